@@ -116,7 +116,8 @@ Composite(h) ==
    F(ml, "msg"), F(ml \o ".type_url", "url"), F(ml \o ".key_material_type", "enum4"), F(ml \o ".value", "opaque"),
    F(ml \o ".value>version", "version"), F(ml \o ".value>key_value", "opaque"), F(ml \o ".value>" \o pk \o "params.ml_dsa_instance", "enum3"),
    F(cl, "msg"), F(cl \o ".type_url", "url"), F(cl \o ".key_material_type", "enum4"), F(cl \o ".value", "opaque"),
-   F(cl \o ".value>version", "version"), F(cl \o ".value>key_value", "opaque"),
+   F(cl \o ".value>version", "version"),
+   FB(cl \o ".value>key_value", "opaque", IF h = "private" THEN CompEd \cup CompEc ELSE CompEd),
    FB(cl \o ".value>" \o pk \o "params.curve", "curve", CompEc), FB(cl \o ".value>" \o pk \o "params.hash_type", "hash", CompEc),
    FB(cl \o ".value>" \o pk \o "x", "point", CompEc)}
   \cup (IF h = "private" THEN {F(ml \o ".value>public_key.key_value", "opaque"), F(cl \o ".value>public_key", "msg")} ELSE {})
